@@ -56,7 +56,7 @@ def budget(prop, tier):
     else:
         runs = 4000 if tier == "quick" else 250000
     return {"runs": runs, "chunk": 25,
-            "wall": 200 if tier == "quick" else 3300, "hang": 900}
+            "wall": 200 if tier == "quick" else 3300, "hang": 400}
 
 
 def extra(prop, tier):
